@@ -11,6 +11,7 @@ def check(ctx, rep):
     par.par_7(ctx, rep)
     par.par_10(ctx, rep)
     par.pop_shape(ctx, rep)
+    par.par_12(ctx, rep)      # convert_node names the node after the reduced nonterminal
     par.par_11(ctx, rep)      # Keyword vs Name leaves: decided on the token text itself
     gr.gr_7(ctx, rep)
     gr.gr_6(ctx, rep)
